@@ -21,7 +21,7 @@ class C17(Spec):
     theorems = ["Nun.C17_counter_equals_bound_sessions", "Nun.C17_usedb_keeps_invariant", "Nun.C17_disconnect_keeps_invariant", "Nun.applyChange_frame", "Nun.connInv_start",
                 "Nun.C17_failed_usedb_noop", "Nun.setValue_conns", "Nun.C17_left_unbound_noop", "Nun.C17_close_removes_session"]
     rule = ("all sequences of length L over {use-db a, use-db b, wrong token, user token, unknown db, disconnect (tcp/ws sequence), one-shot HTTP requests} x 3 sessions x 2 databases, "
-            "with a watcher of $connections; plus seeded random longer sequences. After every step the reference session table is compared with the counter, the $connections value and the watcher's notifications. "
+            "with a watcher of $connections (also behind a subscription that outlived its session); plus seeded random longer sequences. After every step the reference session table is compared with the counter, the $connections value and the watcher's notifications. "
             "non-trivial = some session binds and some session leaves; distinct by trace hash")
 
     def extra_stage(self, tier, seed):
@@ -47,6 +47,12 @@ class C17(Spec):
         L = 3 if tier == "quick" else 4
         for seq in itertools.product(al2, repeat=L):
             cases.append(SETUP + ["SESS 1", "SESS 2", "SESS 4", "C 4 use-db a ta", "C 4 watch $connections"] + list(seq))
+        # a subscription that outlived its session sits AHEAD of the live watcher in the database's list: a session watched $connections
+        # of `a`, moved to `b` and disconnected (the disconnect cleans the database selected at that moment only)
+        STALE = SETUP[:-1] + ["C 9 use-db b tb", "CLOSE 9", "SESS 8", "C 8 use-db b tb", "C 8 watch $connections", "C 8 use-db a ta", "CLOSE 8"]
+        for seq in itertools.product(al2, repeat=2 if tier == "quick" else 3):
+            cases.append(STALE + ["SESS 1", "SESS 2", "SESS 4", "C 4 use-db a ta", "C 4 watch $connections"] + list(seq))
+            cases.append(STALE + ["SESS 1", "SESS 2", "SESS 4", "C 4 use-db b tb", "C 4 watch $connections"] + list(seq))
         rng = core.XorShift(seed)
         al3 = alphabet()
         for _ in range(1000 if tier == "quick" else 20000):
